@@ -10,7 +10,10 @@ import time
 from . import build
 from .build import InfraError, VERIF
 
-EVID_DIR = os.path.join(VERIF, "evidence")
+# evidence/ describes /repo itself: runs against another checkout (VERIF_REPO, used for the seeded changes only)
+# write theirs under .cache/ instead
+EVID_DIR = (os.path.join(VERIF, "evidence") if os.environ.get("VERIF_REPO") is None
+            else os.path.join(VERIF, ".cache", "evidence-other-checkout"))
 REPLAY_DIR = os.path.join(VERIF, "replays")
 KNOWN_FILE = os.path.join(VERIF, "known_findings.json")
 MAX_REPLAYS = 12
@@ -148,6 +151,15 @@ class Ctx(object):
             f.write("\n")
         os.replace(tmp, path)
         _validate(path)
+        if os.environ.get("VERIF_REPO") is None:
+            # per-tier copy, so that a quick run does not erase the record of the last thorough run
+            tdir = os.path.join(EVID_DIR, "by-tier")
+            os.makedirs(tdir, exist_ok=True)
+            tpath = os.path.join(tdir, "%s.%s.json" % (self.pid, self.tier))
+            with open(tpath + ".tmp%d" % os.getpid(), "w") as f:
+                json.dump(ev, f, indent=1, sort_keys=True)
+                f.write("\n")
+            os.replace(tpath + ".tmp%d" % os.getpid(), tpath)
         for k in self.known:
             if k.get("status", "known") != "known":
                 continue
